@@ -216,6 +216,21 @@ func c35Worker(w *WorkerCtx) {
 		w.Emit(WorkResult{Kind: "item", Violations: []Violation{v}, Replay: WriteReplay(filepath.Join(outDir(), "replay"), rf, "leb128"), NonTrivial: true, Shape: "leb"})
 		return
 	}
+	{
+		kinds, cnt, problem := operandSweep(NewRng(w.Seed ^ 0x35))
+		if problem != "" {
+			v := Violation{Property: "C35", Oracle: "instruction.operand-round-trip", Key: "operand-sweep", Detail: problem}
+			rf := &ReplayFile{Property: "C35", Oracle: v.Oracle, VerifSeed: int64(w.Seed), Tier: w.Tier, Kind: "c35", Violation: &v}
+			w.Emit(WorkResult{Kind: "item", Violations: []Violation{v}, Replay: WriteReplay(filepath.Join(outDir(), "replay"), rf, "operand-sweep"), NonTrivial: true, Shape: "operand-sweep"})
+			return
+		}
+		if kinds < 50 {
+			w.Emit(WorkResult{Kind: "harness-error", Msg: fmt.Sprintf("operand sweep reached only %d instruction kinds", kinds)})
+			return
+		}
+		w.Emit(WorkResult{Kind: "item", Seed: w.Seed, Stats: NewRunStats(), Shape: fmt.Sprintf("operand-sweep/worker-%d", w.Index), NonTrivial: true,
+			Extra: map[string]int{"operand_sweep_instruction_kinds": kinds, "operand_sweep_round_trips": cnt}})
+	}
 	// compile zoo: the same multi-contract worlds in every worker process, each compiled from scratch several times
 	nzoo := 8
 	if w.Tier == "thorough" {
@@ -290,6 +305,9 @@ func init() {
 		if len(rf.Custom) == 0 {
 			if p := lebSweep(NewRng(uint64(rf.VerifSeed))); p != "" {
 				return []Violation{{Property: "C35", Oracle: "leb128.round-trip", Detail: p}}
+			}
+			if _, _, p := operandSweep(NewRng(uint64(rf.VerifSeed) ^ 0x35)); p != "" {
+				return []Violation{{Property: "C35", Oracle: "instruction.operand-round-trip", Detail: p}}
 			}
 			return nil
 		}
